@@ -514,11 +514,10 @@ theorem llLayout_musigma [HasErf α] (k : Kind) (hk : k = .gauss true ∨ k = .l
 
 
 /-- **every accepted layout of the same values gives `compute_log_likelihood` of the bare values**
-    (legacy code: except the heterogeneous model's tensor reading) -/
+    (also for the code as it is: no `compute_log_likelihood` contains a layout slip any more) -/
 theorem llLayout_eq_canon [HasErf α] (legacy : Bool) (k : Kind) (nIds nDim : Nat) (m : Nat → Nat → α)
     (lay : Layout α) (obs : Nat → Nat → α) (hlay : IsLayoutOf nIds (k.perDim nIds) nDim m lay)
-    (hI : 0 < nIds) (hD : 0 < nDim)
-    (hleg : legacy = true → k = .hetero → lay.isTensor = false) :
+    (hI : 0 < nIds) (hD : 0 < nDim) :
     llLayout legacy k nIds nDim lay obs = .ok (llCanon k nIds nDim m obs) := by
   cases k with
   | gauss c =>
@@ -531,7 +530,7 @@ theorem llLayout_eq_canon [HasErf α] (legacy : Bool) (k : Kind) (nIds nDim : Na
     · exact llLayout_musigma _ (Or.inr (Or.inl rfl)) legacy nIds nDim m lay obs hlay hI hD
   | trunc => exact llLayout_musigma _ (Or.inr (Or.inr rfl)) legacy nIds nDim m lay obs hlay hI hD
   | pooled =>
-    obtain ⟨a, ha, w⟩ := deltaArr_pooled legacy nIds nDim m lay hlay hI hD
+    obtain ⟨a, ha, w⟩ := deltaArr_pooled false nIds nDim m lay hlay hI hD
     obtain ⟨f, hf, hg⟩ := w.bc hI
     simp only [llLayout, llCanon, beq_pooled_hetero, ha, hf]
     congr 1
@@ -539,8 +538,8 @@ theorem llLayout_eq_canon [HasErf α] (legacy : Bool) (k : Kind) (nIds nDim : Na
     intro i d hi hd
     simp [deltaTh, hg i d hi hd]
   | hetero =>
-    obtain ⟨a, ha, hr, hc, hget⟩ := deltaArr_hetero legacy nIds nDim m lay hlay hI hD
-      (fun h => hleg h rfl)
+    obtain ⟨a, ha, hr, hc, hget⟩ := deltaArr_hetero false nIds nDim m lay hlay hI hD
+      (fun h => absurd h (by simp))
     obtain ⟨f, hf, hg⟩ := bc_of_shape a nIds nDim hr hc
     simp only [llLayout, llCanon, beq_hetero_hetero, ha, hf]
     congr 1
@@ -595,22 +594,21 @@ theorem sensLayout_musigma [HasErf α] (k : Kind)
 theorem sensLayout_eq_canon [HasErf α] (legacy : Bool) (k : Kind) (nIds nDim : Nat)
     (m : Nat → Nat → α) (lay : Layout α) (obs : Nat → Nat → α) (up : Option (Nat → Nat → α))
     (hlay : IsLayoutOf nIds (k.perDim nIds) nDim m lay) (hI : 0 < nIds) (hD : 0 < nDim)
-    (hleg : legacy = true → (sensTypo k = true → lay.isMatrix = false)
-      ∧ (k = .hetero → lay.isTensor = false)) :
+    (hleg : legacy = true → sensTypo k = true → lay.isMatrix = false) :
     Except.map (sensObs k nIds nDim) (sensLayout legacy k nIds nDim lay obs up)
       = .ok (sensObs k nIds nDim (sensCanon k nIds nDim m obs up)) := by
   cases k with
   | gauss c =>
     exact sensLayout_musigma _ (Or.inl ⟨c, rfl⟩) legacy nIds nDim m lay obs up hlay hI hD
-      (fun h => (hleg h).1)
+      hleg
   | logn c =>
     exact sensLayout_musigma _ (Or.inr (Or.inl ⟨c, rfl⟩)) legacy nIds nDim m lay obs up
-      hlay hI hD (fun h => (hleg h).1)
+      hlay hI hD hleg
   | trunc =>
     exact sensLayout_musigma _ (Or.inr (Or.inr rfl)) legacy nIds nDim m lay obs up
-      hlay hI hD (fun h => (hleg h).1)
+      hlay hI hD hleg
   | pooled =>
-    obtain ⟨a, ha, w⟩ := deltaArr_pooled legacy nIds nDim m lay hlay hI hD
+    obtain ⟨a, ha, w⟩ := deltaArr_pooled false nIds nDim m lay hlay hI hD
     obtain ⟨f, hf, hg⟩ := w.bc hI
     simp only [sensLayout, sensCanon, beq_pooled_hetero, ha, hf, Except.map]
     congr 1
@@ -618,8 +616,8 @@ theorem sensLayout_eq_canon [HasErf α] (legacy : Bool) (k : Kind) (nIds nDim : 
     intro i d hi hd
     simp [deltaTh, hg i d hi hd]
   | hetero =>
-    obtain ⟨a, ha, hr, hc, hget⟩ := deltaArr_hetero legacy nIds nDim m lay hlay hI hD
-      (fun h => (hleg h).2 rfl)
+    obtain ⟨a, ha, hr, hc, hget⟩ := deltaArr_hetero false nIds nDim m lay hlay hI hD
+      (fun h => absurd h (by simp))
     obtain ⟨f, hf, hg⟩ := bc_of_shape a nIds nDim hr hc
     simp only [sensLayout, sensCanon, beq_hetero_hetero, ha, hf, Except.map]
     congr 1
@@ -728,6 +726,12 @@ theorem flatten_matOf_one (nDim : Nat) (m : Nat → Nat → α) :
     (matOf 1 nDim m).flatten = (List.range nDim).map (m 0) := by
   simp [matOf]
 
+theorem heteroDrawn_eq (eta : EtaArg α) (nIds : Nat) (res : List (List (PsiVal α)))
+    (hn : eta.nRows nIds = nIds) : heteroDrawn eta nIds res = res := by
+  cases eta with
+  | mat rows => simp only [EtaArg.nRows] at hn; simp [heteroDrawn, hn]
+  | flat l => rfl
+
 theorem indivLayout_eq_canon (legacy : Bool) (k : Kind) (nIds nDim : Nat) (m : Nat → Nat → α)
     (lay : Layout α) (eta : EtaArg α) (ret : Bool)
     (hlay : IsLayoutOf nIds (k.perDim nIds) nDim m lay) (hI : 0 < nIds) (hD : 0 < nDim)
@@ -787,13 +791,15 @@ theorem indivLayout_eq_canon (legacy : Bool) (k : Kind) (nIds nDim : Nat) (m : N
   | hetero =>
     cases hlay with
     | flat =>
-      simp only [indivLayout, indivCanon, flatOf_length, Kind.perDim, if_true]
+      simp only [indivLayout, indivCanon, flatOf_length, Kind.perDim, if_true,
+        heteroDrawn_eq eta nIds _ hn]
       congr 1
       exact psiMat_congr _ _ _ _ fun i d hi hd => by
         rw [show flatOf nIds nDim m = (List.range nIds).flatMap (fun p => (List.range nDim).map (m p))
           from rfl, getD_flatMap_range nIds nDim m i d hi hd]
     | matrix =>
-      simp only [indivLayout, indivCanon, Kind.perDim, matOf, psiMat, List.map_map]
+      simp only [indivLayout, indivCanon, Kind.perDim, matOf_length, heteroDrawn_eq eta nIds _ hn]
+      simp only [matOf, psiMat, List.map_map]
       congr 1
       refine List.map_congr_left fun i _ => ?_
       simp [Function.comp]
@@ -803,7 +809,8 @@ theorem indivLayout_eq_canon (legacy : Bool) (k : Kind) (nIds nDim : Nat) (m : N
         rw [← tensOf_getD nIds nIds nDim m 0 (by omega)]
         cases h : tensOf nIds nIds nDim m <;> simp [List.getD]
       simp only [indivLayout, indivCanon, Kind.perDim, hlen, hhead, matOf_length, Nat.min_self,
-        matOf_headD nIds nDim m hI, List.length_map, List.length_range]
+        matOf_headD nIds nDim m hI, List.length_map, List.length_range,
+        heteroDrawn_eq eta nIds _ hn]
       congr 1
       exact psiMat_congr _ _ _ _ fun i d hi hd => by
         rw [tensOf_getD nIds nIds nDim m i (by omega), matOf_getD nIds nDim m i hi,
